@@ -332,9 +332,14 @@ PROPERTIES.update({
         "verus": [("u06v_hexane_str", "*"), ("u29_hexane_prefix", "*"), ("u31_hexane_bool", "*"), ("u33_delta_nth", "*"), ("u34_delta_agg", "*"), ("u35_rle_track", "*"), ("u36_bool_load", "*")],
         "kani": ["u06_codec_reads_agree", "u06_leb_unsigned_roundtrip", "u06_leb_signed_roundtrip", "u06_int_unpack_total", "u06_narrow_unpack_total", "u06_string_unpack_q", "u06_string_unpack_t",
                  "u06_string_unpack_huge_len", "u06_rle_segment_total_u64", "u06_rle_segment_total_i64", "u06_rle_segment_utf8"],
-        "not_under_contract": ["Column::load / load_with / save / save_to", "slabs, B-tree index, splice, RLE loader (rle/load.rs), bool and delta encodings, encoder.rs", "value pack() into Vec"],
+        "not_under_contract": ["Column::load / load_with / save / save_to (the generic ColumnLoadIter::finalize_with, Column::fill)", "slabs, B-tree index, splice, encoder.rs",
+                               "RLE loader apart from its per-segment bookkeeping (Slab::copy_from, validate_after, rle_validate_encoding)", "bool encoding apart from BoolDecoder and BoolLoadIter::{new, cut_slab, try_next_run} (finalize, merge, splice, fill)",
+                               "delta encoding apart from the loader's slab aggregate and DeltaDecoder::nth (domain check in DeltaColumn::load_with, save_to_unless)", "value pack() into Vec"],
         "explanation": "Kani proves on the real hexane crate: the varint codec round-trips for ALL u64 and i64 with the exact encoded length (complete); integer value decoders are total on every input up to 11 bytes "
-                       "(complete for their 10-byte maximum width); string/bytes decoders and one RLE segment step are total within stated buffer bounds. Column-level save/load is not under contract.",
+                       "(complete for their 10-byte maximum width); string/bytes decoders and one RLE segment step are total within stated buffer bounds. "
+                       "Verus proves on the extracted text, for every input: the loaders' folds over untrusted run counts -- RLE per-segment bookkeeping (saturating item count), prefix and delta slab weights "
+                       "(exact or error), the bool column loader (no out-of-range read, termination, every slab starts on a false run) -- the streaming bool decoder under the validated-slab precondition, "
+                       "the u32 prefix sums (saturating) and DeltaDecoder::nth (skips exactly n). Column-level save/load round trips are not under contract.",
     },
     "C39": {
         "level": "proof",
